@@ -18,7 +18,7 @@ import (
 
 // LOp is one event of a lifecycle history.
 type LOp struct {
-	Op   string `json:"op"`             // connect call close abort failcall expiry shutdown shutdown-race shutdown-early cancel bind-again serve late-connect
+	Op   string `json:"op"`             // connect call close abort failcall expiry shutdown shutdown-race shutdown-early cancel bind-again serve late-connect accept-fault
 	Conn int    `json:"conn,omitempty"` // index into the open connections (modulo their number)
 }
 
@@ -378,6 +378,34 @@ func (r *lifeRun) step1(op LOp) error {
 			return fmt.Errorf("an accept-timeout expiry stopped the service (returned %v) although %d connection(s) are open", e, len(r.open))
 		}
 		return r.callOn(r.open[0])
+	case "accept-fault":
+		// Accept fails with a transient error that is not a timeout while nothing is connected. Whether serving goes on
+		// or ends with that error is not specified - but it is not an idle period: no timeout error, with or without a timeout
+		if !r.serving || len(r.open) != 0 {
+			return nil
+		}
+		if !r.waitBlocked() {
+			return fmt.Errorf("the loop is not waiting in Accept")
+		}
+		acceptsBefore := atomic.LoadInt32(&r.fake.AcceptN)
+		r.fake.InjectTempError()
+		r.facts["accept-fault-idle"]++
+		for dl := time.Now().Add(r.bound); ; {
+			if e, ok := r.returned(); ok {
+				if _, isTimeout := e.(varlink.ServiceTimeoutError); isTimeout {
+					return fmt.Errorf("a failing Accept (temporary error, not a timeout) made the serving call return the idle-timeout error although no idle period had passed (timeout configured: %v)", r.timeout != 0)
+				}
+				r.wantNil = false
+				return r.awaitReturn(false)
+			}
+			if atomic.LoadInt32(&r.fake.AcceptN) > acceptsBefore && r.fake.Blocked() {
+				return nil // it went back to accepting
+			}
+			if time.Now().After(dl) {
+				return fmt.Errorf("after a failing Accept the loop neither returned nor went back to Accept within %v", r.bound)
+			}
+			time.Sleep(50 * time.Microsecond)
+		}
 	case "shutdown", "shutdown-race":
 		if !r.serving {
 			return nil
